@@ -169,7 +169,8 @@ def search_model(ctx, label, spec, m, hits):
         if fam == 'kde' and r['key'] == 'cdf-range':
             tail = univ.kde_tail_bound(m)
             lower = float(k._get_bounds()[0])
-            if r['x'] < lower and -tail * (1 + 1e-6) - 1e-15 <= r['value'] < 0:
+            Dd = np.ravel(np.asarray(k._params['dataset'], dtype=float))
+            if abs(lower - (Dd.min() - 5 * Dd.std())) <= 1e-9 * (1 + abs(lower)) and r['x'] < lower and -tail * (1 + 1e-6) - 1e-15 <= r['value'] < 0:
                 key = 'F13a:kde-cdf-outside-unit-interval'
                 r['what'] += f' (x is below the lower bound min-5*sigma = {lower!r}; |value| <= Phi(-5 sigma/h) = {tail!r})'
         report(key, r['what'], r, 'cdf_laws', [gl])
@@ -181,6 +182,10 @@ def search_model(ctx, label, spec, m, hits):
             if -tail * (1 + 1e-6) - 1e-15 <= r['lo'] <= 0 and 1 - tail * (1 + 1e-6) - 1e-15 <= r['hi'] <= 1:
                 key = 'F13a:kde-cdf-outside-unit-interval'
         report(key, r['what'], r, 'cdf_limits', [])
+    # --- short names
+    r = O.aliases(m, [float(v) for v in np.linspace(lo, hi, 5)])
+    if r:
+        report(f'search:{r["key"]}:{fam}', r['what'], r, 'aliases', [[float(v) for v in np.linspace(lo, hi, 5)]])
     # --- density
     r = O.pdf_nonneg(m, gl)
     if r:
@@ -218,7 +223,10 @@ def search_model(ctx, label, spec, m, hits):
             r = O.ppf_laws(m, unsafe[:1])
             if r:
                 key = f'search:{r["key"]}:{fam}'
-                if r['key'] == 'ppf-raises-AssertionError':
+                tail = univ.kde_tail_bound(m)
+                Dd = np.ravel(np.asarray(k._params['dataset'], dtype=float))
+                genuine = (abs(upper - (Dd.max() + 5 * Dd.std())) <= 1e-9 * (1 + abs(upper)) and Fhi >= 1 - 2 * tail * (1 + 1e-6) - 1e-12)
+                if r['key'] == 'ppf-raises-AssertionError' and genuine:     # bracket as designed, cdf(upper) >= 1 - 2 Phi(-5 sigma/h) (kde_cdf_at_U_lower)
                     key = 'F13b:kde-ppf-bracket-invalid'
                     r['what'] = (f'percent_point({unsafe[0]!r}) raises AssertionError: the bracket [min-5 sigma, max+5 sigma] is not a sign change because '
                                  f'cdf(upper) = {Fhi!r} < u (bandwidth h = {float(np.sqrt(k._model.covariance[0, 0]))!r}, sigma = {sd!r})')
@@ -289,8 +297,13 @@ def run(ctx):
     ctx.extra['fit_raised'] = fit_errors
     for label, err in fit_errors.items():
         spec = dict(specs)[label]
-        if spec['cls'] != 'Univariate':     # a scipy fitter refusing a sample is not a fitted model: the property is vacuous there
+        fam = label.split(':')[0]
+        if fam in ('beta', 'gamma', 'student_t', 'log_laplace') and ':own' not in label:
+            # scipy's generic MLE refusing a sample that is not from its family: no fitted model, the property is vacuous there
             ctx.log(f'note: fit raised for {label}: {err[:120]}')
+            continue
+        ctx.violation(f'search:fit-raises-{err.split(":")[0]}:{fam}', f'{label} ({spec["cls"]} {spec["kwargs"]}): fit raised {err[:300]}',
+                      {'model': label, 'spec': spec, 'repro': f'from vf import univ\nm = univ.build({spec!r})\n'}, found=True)
 
     import time
     t1 = time.time()
@@ -321,16 +334,28 @@ def correspondence(ctx, models, props_compiled):
     imports_gen = 'From CopRun Require Import Gen_univ.'
     # ---------- static tables, evaluated in Coq
     tabs = cases.run_vm_cases(ctx, 'Cases_C03_tab', imports_gen,
-                              ['gen_scipy_delegation', 'gen_wrapper_delegation', 'gen_constant_replacements', 'gen_model_class', 'gen_kde_ppf_solvers'],
+                              ['gen_scipy_delegation', 'gen_wrapper_delegation', 'gen_constant_replacements', 'gen_model_class', 'gen_kde_ppf_solvers',
+                               'gen_kde_ppf_shape_error 1', 'gen_kde_ppf_shape_error 2'],
                               hdr=TAB_HDR)
-    deleg, wrap, repl, mclass, solvers = (dict(pairs(t)) for t in tabs)
+    deleg, wrap, repl, mclass, solvers = (dict(pairs(t)) for t in tabs[:5])
+    solvers['shape-error'] = (tabs[5], tabs[6])
     ctx.obligation('corr:tables-evaluated', all(tabs) and all([deleg, wrap, repl, mclass, solvers]), 'correspondence', str(tabs)[:300])
+    if not all(tabs):
+        return
     exprs, vmeta = [], []          # vm_compute cases
     goals = []                     # interval goals
 
     def vm(expr, meta):
         exprs.append(expr)
         vmeta.append(meta)
+    seen = set()
+
+    def once(kind, fam, sample):
+        """evidence samples: one per (kind of case, family), so that the 12 recorded samples are diverse"""
+        if (kind, fam) in seen or (kind == 'delegation' and len(seen) > 9):
+            return None
+        seen.add((kind, fam))
+        return {'case': kind, **sample}
     for label, spec, m, log in models:
         if m is None:
             continue
@@ -342,13 +367,13 @@ def correspondence(ctx, models, props_compiled):
         sample = {'model': label, 'spec': tiny(spec), 'selected': type(k).__name__}
         # ---- constant detection (every model)
         vm(f'showoq (qcheck_constant_value {qlist(X)})', ('const-detect', label, spec, m))
-        ctx.case(('const-detect', label), sample, nontrivial=True)
+        ctx.case(('const-detect', label), None, nontrivial=True)
         if const:
             c = float(X[0])
             xs = [c - 1.0, float(np.nextafter(c, -np.inf)), c, float(np.nextafter(c, np.inf)), c + 2.5]
             vm(f'(map showq (map (qconst_cdf {q(c)}) {qlist(xs)}), map showq (map (qconst_pdf {q(c)}) {qlist(xs)}), '
                f'map showq (map (qconst_ppf {q(c)}) {qlist([0.0, 0.3, 1.0])}), map showq (qconst_sample {q(c)} 4))', ('const-query', label, spec, m, xs))
-            ctx.case(('const-query', label), {**sample, 'c': c, 'points': xs}, nontrivial=True)
+            ctx.case(('const-query', label), once('constant-query', 'any', {**sample, 'c': c, 'points': xs}), nontrivial=True)
             # instance-level replacement table
             got = {name: getattr(k, name).__name__ for name in repl if name in k.__dict__}
             ctx.obligation(f'corr:constant-replacements:{label}', got == repl, 'correspondence', f'instance overrides {got} vs generated table {repl}')
@@ -366,17 +391,18 @@ def correspondence(ctx, models, props_compiled):
             us = [0.0, 0.125, 0.5, 0.8125, 1.0, -0.25, 1.5]
             vm(f'(map showq (map (qunif_cdf {q(loc)} {q(sc)}) {qlist(xs)}), map showq (map (qunif_pdf {q(loc)} {q(sc)}) {qlist(xs)}), '
                f'map showoq (map (qunif_ppf {q(loc)} {q(sc)}) {qlist(us)}))', ('uniform-query', label, spec, m, xs, us))
-            ctx.case(('uniform', label), {**sample, 'loc': loc, 'scale': sc}, nontrivial=True)
+            ctx.case(('uniform', label), once('uniform-closed-form', 'uniform', {**sample, 'loc': loc, 'scale': sc}), nontrivial=True)
         # ---- aliases pdf/cdf/ppf and (wrapper) delegation to the selected instance, per the generated table
         check_wrapper(ctx, label, spec, m, wrap)
         # ---- scipy delegation trace
         if fam in SCIPY_FAMS:
             check_delegation(ctx, label, spec, m, deleg, mclass, wrap)
-            ctx.case(('delegation', label), sample, nontrivial=True)
+            ctx.case(('delegation', label), once('delegation', fam + spec['cls'], {**sample, 'params': {kk: float(vv) for kk, vv in k._params.items()}}), nontrivial=True)
         # ---- KDE
         if fam == 'kde':
             check_kde(ctx, label, spec, m, vm, goals, wrap, solvers)
-            ctx.case(('kde', label), {**sample, 'bandwidth_factor': float(k._model.factor), 'h2': float(k._model.covariance[0, 0])}, nontrivial=True)
+            ctx.case(('kde', label), once('kde', str(sorted(spec['kwargs'])) + spec['cls'], {**sample, 'bandwidth_factor': float(k._model.factor), 'h2': float(k._model.covariance[0, 0]),
+                                                                                 'bounds': [float(v) for v in k._get_bounds()]}), nontrivial=True)
     # ---------- run vm cases
     outs = cases.run_vm_cases(ctx, 'Cases_C03_vm', VM_IMPORTS, exprs, per_file=40, hdr=VM_HDR, scope_open='Open Scope Q_scope.')
     for meta, o in zip(vmeta, outs):
@@ -606,6 +632,35 @@ def check_kde(ctx, label, spec, m, vm, goals, wrap, solvers):
         except Exception as ex:
             impl = type(ex).__name__
         vm(f'showroutes (q_ppf_route {q(lo)} {q(hi)} {qlist(us)})', ('kde-route', label, spec, m, us, impl))
+    # ---- 1-d check and solver selection, per the generated facts
+    r1 = safe(lambda: m.percent_point(np.array([0.5, 0.25])))
+    r2 = safe(lambda: m.percent_point(np.array([[0.5, 0.25]])))
+    impl_shape = ('true' if isinstance(r1, str) and r1.startswith('raises ValueError') else 'false',
+                  'true' if isinstance(r2, str) and r2.startswith('raises ValueError') else 'false')
+    ok = impl_shape == solvers.get('shape-error')
+    ctx.obligation(f'corr:kde-ppf-shape-check:{label}', ok, 'correspondence', f'1-d / 2-d input raises ValueError: {impl_shape}, generated {solvers.get("shape-error")}')
+    if not ok:
+        viol_corr(ctx, 'corr:kde-ppf-shape-check', f'{label}: percent_point on a 1-d / 2-d array raises ValueError: {impl_shape}; generated check says {solvers.get("shape-error")}',
+                  spec, {}, 'try:\n    m.percent_point(np.array([[0.5, 0.25]]))\n    raise SystemExit(1)\nexcept ValueError:\n    pass\nm.percent_point(np.array([0.5, 0.25]))\n')
+    import copulas.optimize as opt
+    import copulas.univariate.gaussian_kde as gk
+    used = {}
+    orig = (gk.bisect, gk.chandrupatla)
+    try:
+        gk.bisect = lambda f, a, b, **kw: (used.__setitem__('last', 'copulas.optimize.bisect'), orig[0](f, a, b, **kw))[1]
+        gk.chandrupatla = lambda f, a, b, **kw: (used.__setitem__('last', 'copulas.optimize.chandrupatla'), orig[1](f, a, b, **kw))[1]
+        got = {}
+        for meth in ('bisect', 'chandrupatla', 'anything-else'):
+            used.clear()
+            rr = safe(lambda: k.percent_point(np.array([0.3, 0.6]), method=meth))
+            got[meth] = used.get('last') if not isinstance(rr, str) else rr
+    finally:
+        gk.bisect, gk.chandrupatla = orig
+    exp = {'bisect': solvers.get('bisect'), 'chandrupatla': solvers.get('*'), 'anything-else': solvers.get('*')}
+    ok = got == exp and orig == (opt.bisect, opt.chandrupatla)
+    ctx.obligation(f'corr:kde-ppf-solver:{label}', ok, 'correspondence', f'solver used per method: {got}, generated {exp}')
+    if not ok:
+        viol_corr(ctx, 'corr:kde-ppf-solver', f'{label}: solver used per `method` argument {got}, generated selection {exp}', spec, {}, 'raise SystemExit(1)\n')
     if len(D) > 16:
         return
     base = {'model': label, 'spec': spec}
